@@ -98,6 +98,10 @@ def level(e):
         return L_PRIM
     if k == "bin":
         return BIN_LEVEL[e[1]]
+    if k == "sel":
+        return L_PRIM
+    if k in ("any", "all"):
+        return L_CMP
     return {"cmp": L_CMP, "and": L_AND, "or": L_OR, "not": L_UNARY, "neg": L_UNARY, "proj": L_PROJ, "cond": L_COND}[k]
 
 
@@ -139,6 +143,28 @@ def _pp(e, names):
         return f'{pp(e[1], names, L_PROJ)} | "{e[2]}"'
     if k == "cond":
         return f"{pp(e[1], names, L_CMP)} : {pp(e[2], names, L_PRIM)}"
+    if k == "sel":
+        return f'{names[e[1]]}["{e[2]}"]'
+    if k in ("any", "all"):
+        return f"{k}({names[e[2]]}) {e[1]} {pp(e[3], names, L_CMP + 1)}"
+    raise ValueError(k)
+
+
+def pp_bundle(b, names):
+    k = b[0]
+    if k == "blit":
+        return "{ " + ", ".join(pp(e, names, 0) if s is None else pp(e, names, 0) for s, e in b[1]) + " }"
+    if k == "bref":
+        return names[b[1]]
+    if k == "bmerge":
+        return "{ " + ", ".join(pp_bundle(x, names).strip("{} ") if x[0] == "blit" else pp_bundle(x, names) for x in b[1:]) + " }"
+    if k == "barith":
+        return f"{pp_bundle(b[2], names)} {b[1]} {pp(b[3], names, BIN_LEVEL[b[1]] + 1)}"
+    if k == "bfilter":
+        out = pp_bundle(b[2], names) if b[4] is None else str(b[4])
+        return f"({pp_bundle(b[2], names)} {b[1]} {pp(b[3], names, L_CMP + 1)}) : {out}"
+    if k == "bgate":
+        return f"({pp(b[1], names, L_CMP)}) : {pp_bundle(b[2], names)}"
     raise ValueError(k)
 
 
@@ -155,6 +181,8 @@ def program_text(decls):
             out.append(f"Signal {d[1]} = {pp(d[2], names)};")
         elif d[0] == "int":
             out.append(f"int {d[1]} = {pp(d[2], names)};")
+        elif d[0] == "bundle":
+            out.append(f"Bundle {d[1]} = {pp_bundle(d[2], names)};")
     return "\n".join(out) + "\n"
 
 
@@ -188,6 +216,33 @@ def coq_expr(e, sig):
         return f"(EProj {coq_expr(e[1], sig)} {sig.p(e[2])})"
     if k == "cond":
         return f"(ECond {coq_expr(e[1], sig)} {coq_expr(e[2], sig)})"
+    if k == "sel":
+        return f"(ESel {e[1]}%nat {sig.p(e[2])})"
+    if k == "any":
+        return f"(EAny {COPS[e[1]]} {e[2]}%nat {coq_expr(e[3], sig)})"
+    if k == "all":
+        return f"(EAll {COPS[e[1]]} {e[2]}%nat {coq_expr(e[3], sig)})"
+    raise ValueError(k)
+
+
+def coq_bexpr(b, sig):
+    k = b[0]
+    if k == "blit":
+        return "(BLit [" + "; ".join(f"({sig.p(s)}, {coq_expr(e, sig)})" for s, e in b[1]) + "])"
+    if k == "bref":
+        return f"(BRef {b[1]}%nat)"
+    if k == "bmerge":
+        t = coq_bexpr(b[1], sig)
+        for x in b[2:]:
+            t = f"(BMerge {t} {coq_bexpr(x, sig)})"
+        return t
+    if k == "barith":
+        return f"(BArith {AOPS[b[1]]} {coq_bexpr(b[2], sig)} {coq_expr(b[3], sig)})"
+    if k == "bfilter":
+        kk = "None" if b[4] is None else f"(Some {zc(b[4])})"
+        return f"(BFilter {COPS[b[1]]} {coq_bexpr(b[2], sig)} {coq_expr(b[3], sig)} {kk})"
+    if k == "bgate":
+        return f"(BGate {coq_expr(b[1], sig)} {coq_bexpr(b[2], sig)})"
     raise ValueError(k)
 
 
@@ -204,6 +259,8 @@ def coq_decls(decls, sig, input_vars, exposed):
                 out.append(f"(DSig (ELit {ty} (EInt {zc(d[3])})))")
         elif d[0] == "sig":
             out.append(f"(DSig {coq_expr(d[2], sig)})")
+        elif d[0] == "bundle":
+            out.append(f"(DBundle {coq_bexpr(d[2], sig)})")
         else:
             out.append(f"(DInt {coq_expr(d[2], sig)})")
     return "[" + ";\n   ".join(out) + "]"
@@ -217,8 +274,8 @@ def unfolded_size(decls):
     """size of every declaration's expression tree with variable references expanded"""
     sizes = []
     for d in decls:
-        if d[0] == "in":
-            sizes.append(1)
+        if d[0] in ("in", "bundle"):
+            sizes.append(3)
             continue
 
         def sz(e):
